@@ -64,7 +64,8 @@ func loadFindings() []Finding {
 
 type caseOutcome struct {
 	I     int
-	Input json.RawMessage
+	Hash  uint64          // hash of the input
+	Input json.RawMessage // kept only for violations, inconclusive cases and a few samples
 	Res   Result
 	Out   string
 	CPU   float64
@@ -150,7 +151,7 @@ func runBatch(self string, p *Prop, seed int64, tier string, b batch, base strin
 			os.Exit(2)
 		}
 		stderr, _ := os.ReadFile(errFile)
-		co := caseOutcome{I: open.I, Input: open.Input}
+		co := caseOutcome{I: open.I, Input: open.Input, Hash: HashBytes(open.Input)}
 		switch {
 		case timedOut:
 			co.Res = Result{Verdict: Inconclusive, Msg: "wall-clock watchdog (20 min per batch) fired"}
@@ -233,6 +234,7 @@ func readJournal(path string) (done []caseOutcome, open *openCase) {
 	defer f.Close()
 	sc := bufio.NewScanner(f)
 	sc.Buffer(make([]byte, 1<<20), 1<<28)
+	var lastInput json.RawMessage
 	for sc.Scan() {
 		var r jrec
 		if err := json.Unmarshal(sc.Bytes(), &r); err != nil {
@@ -243,7 +245,12 @@ func readJournal(path string) (done []caseOutcome, open *openCase) {
 			open = &openCase{I: r.I, Ev: "begin", Input: r.Input}
 		case "end":
 			if open != nil && open.I == r.I {
-				done = append(done, caseOutcome{I: r.I, Input: open.Input, Res: *r.Res, Out: r.Out, CPU: r.CPU})
+				co := caseOutcome{I: r.I, Hash: HashBytes(open.Input), Res: *r.Res, Out: r.Out, CPU: r.CPU}
+				if r.Res.Verdict == Violation || r.Res.Verdict == Inconclusive || r.I%97 == 1 || r.I < 3 {
+					co.Input = open.Input
+				}
+				lastInput = open.Input
+				done = append(done, co)
 				open = nil
 			}
 		case "cpu", "mem":
@@ -252,7 +259,7 @@ func readJournal(path string) (done []caseOutcome, open *openCase) {
 				open.CPU = r.CPU
 			} else if n := len(done); n > 0 && done[n-1].I == r.I {
 				// the budget monitor fired while the case was finishing: it is still the culprit
-				open = &openCase{I: r.I, Ev: r.Ev, Input: done[n-1].Input, CPU: r.CPU}
+				open = &openCase{I: r.I, Ev: r.Ev, Input: lastInput, CPU: r.CPU}
 				done = done[:n-1]
 			}
 		}
@@ -444,9 +451,9 @@ func DriverMain(self, propID, tier string, seed int64) int {
 				continue
 			}
 			if o.Res.Nontrivial && (o.Res.Verdict == OK) {
-				distinct[HashBytes(o.Input)] = true
+				distinct[o.Hash] = true
 			}
-			if len(samples) < 4 && o.Res.Verdict == OK && o.Res.Nontrivial && evaluations%97 == 1 {
+			if len(samples) < 4 && o.Res.Verdict == OK && o.Res.Nontrivial && o.Input != nil {
 				samples = append(samples, sampleOf(o.Input))
 			}
 		}
@@ -454,7 +461,7 @@ func DriverMain(self, propID, tier string, seed int64) int {
 	if len(samples) == 0 {
 		for _, bo := range outs {
 			for _, o := range bo {
-				if len(samples) < 3 {
+				if len(samples) < 3 && o.Input != nil {
 					samples = append(samples, sampleOf(o.Input))
 				}
 			}
